@@ -20,18 +20,34 @@ WATCHDOG_S = 2.0
 
 META = {
     "property": "C19",
-    "proof_modules": ["PyodaProofs.C19"],
+    "proof_modules": ["PyodaProofs.C19", "PyodaProofs.GenAgreeC19"],
     "drivers": ["drv_clock"],
     "theorems": [
         "Pyoda.C19.fakeClock_refines_spec", "Pyoda.C19.step_preserves_wf",
         "Pyoda.C19.all_ops_complete", "Pyoda.C19.schedule_length_bounded", "Pyoda.C19.linearizable",
         "Pyoda.C19.concurrent_reads_distinct", "Pyoda.C19.sequential_reads_distinct",
         "Pyoda.C19.advanceUnit_blocks_counterexample", "Pyoda.C19.zonedClock_spec",
+        # agreement of the definitions generated from the Python source (tools/py2lean.py) with the model
+        "Pyoda.GenAgree.C19.gen_FakeClock_new_eq", "Pyoda.GenAgree.C19.gen_FakeClock_advance_eq",
+        "Pyoda.GenAgree.C19.gen_FakeClock_advanceNanoseconds_eq", "Pyoda.GenAgree.C19.gen_FakeClock_advanceTicks_eq",
+        "Pyoda.GenAgree.C19.gen_FakeClock_advanceMilliseconds_eq",
+        "Pyoda.GenAgree.C19.gen_FakeClock_advanceSeconds_eq", "Pyoda.GenAgree.C19.gen_FakeClock_advanceMinutes_eq",
+        "Pyoda.GenAgree.C19.gen_FakeClock_advanceHours_eq", "Pyoda.GenAgree.C19.gen_FakeClock_advanceDays_eq",
+        "Pyoda.GenAgree.C19.gen_FakeClock_reset_eq", "Pyoda.GenAgree.C19.gen_FakeClock_getCurrentInstant_eq",
+        "Pyoda.GenAgree.C19.gen_FakeClock_getAutoAdvance_eq", "Pyoda.GenAgree.C19.gen_FakeClock_setAutoAdvance_eq",
+        "Pyoda.GenAgree.C19.gen_ZonedClock_zone_eq", "Pyoda.GenAgree.C19.gen_ZonedClock_calendar_eq",
+        "Pyoda.GenAgree.C19.gen_ZonedClock_getCurrentInstant_eq",
+        "Pyoda.GenAgree.C19.gen_ZonedClock_getCurrentZonedDateTime_eq",
+        "Pyoda.GenAgree.C19.gen_ZonedClock_getCurrentLocalDateTime_eq",
+        "Pyoda.GenAgree.C19.gen_ZonedClock_getCurrentOffsetDateTime_eq",
+        "Pyoda.GenAgree.C19.gen_ZonedClock_getCurrentDate_eq",
+        "Pyoda.GenAgree.C19.gen_ZonedClock_getCurrentTimeOfDay_eq",
     ],
     "trusted_base": [
         "CPython executes one lock acquire/release and one attribute read or write of FakeClock as indivisible steps (GIL); "
         "threading.Lock is not re-entrant and `with lock:` releases it on every exit path",
         "Duration/Instant arithmetic as modelled for C03 (PyodaModel.Elapsed)",
+        "translator tie (tools/py2lean.py; GenAgreeC19): every public operation of FakeClock (constructor, advance, the seven advance_<unit>, reset, get_current_instant, the auto_advance getter and setter) and the ZonedClock getters are re-translated from the source on every run as state-passing functions over (now, auto_advance) and proved equal to one `step` / `zonedRead` of the model. `with self.__lock:` is translated as its body (the tie speaks about ONE thread using the clock; the lock discipline and the interleavings are the Sys model); Instant + Duration and Duration.from_<unit> are the model's (tied by GenAgreeC03); ZonedClock is specialised to a wrapped FakeClock, Instant.in_zone and the projections of the ZonedDateTime are abstract functions; FakeClock.from_utc (calendar arithmetic) and the default auto_advance=Duration.zero are outside the tie",
     ],
     "partial": [
         "SystemClock (operating-system time) and real pre-emption are runtime behaviours: sanity-checked by the harness only "
